@@ -222,3 +222,61 @@ def generic_replay(build):
             return True, 'native run reproduces all %d predicted observables (status, balances, reserves) of the violating execution' % len(obs)
         return sc, judge
     return rb
+
+
+# ---------------------------------------------------------------- abstraction of the pricing kernel
+
+def _leaves(v, out):
+    from ..models_core import deref
+    v = deref(v)
+    if isinstance(v, (St, En, Clo)):
+        if isinstance(v, En):
+            out.append(('v', v.var))
+        for x in v.f:
+            _leaves(x, out)
+    elif isinstance(v, Vc):
+        out.append(('n', len(v.e)))
+        for x in v.e:
+            _leaves(x, out)
+    elif isinstance(v, z3.ExprRef):
+        out.append(('z', v.get_id()))
+    else:
+        out.append(('c', v))
+
+
+def abstract_compute_swap(I, args):
+    """compute_swap as an uninterpreted function of its arguments: identical argument terms give the identical
+    result (fresh variables memoised on the argument tuple); Ok or Err is part of the result.  Used where the
+    obligation is about the glue around the pricing kernel (routes, single-asset chain), never about prices."""
+    key = []
+    for a in args:
+        _leaves(a, key)
+    key = ('compute_swap', tuple(key))
+    memo = I.world.meta.setdefault('uf_memo', {})
+    ent = memo.get(key)
+    if ent is None:
+        n = len(memo)
+        ok = I.symbool('swapcomp%d_ok' % n)
+        if I.ctx.wit is not None:
+            I.ctx.wit_define(ok, True)
+        vals = [I.sym('swapcomp%d_%s' % (n, f), bits=128) for f in
+                ('return_amount', 'slippage_amount', 'swap_fee_amount', 'protocol_fee_amount', 'burn_fee_amount', 'extra_fees_amount')]
+        pat = I.world.meta.get('uf_pattern')
+        if pat is not None:
+            for f, v in zip(('return', 'slippage', 'swap_fee', 'protocol_fee', 'burn_fee', 'extra_fees'), vals):
+                z = pat(n, f)
+                if z == 'zero':
+                    I.assume(v == 0)
+                elif z == 'nonzero':
+                    I.assume(v > 0)
+        ent = (ok, vals, args)      # args kept alive: the key uses AST ids
+        memo[key] = ent
+    ok, vals, _ = ent
+    if not I.fork(ok):
+        return Err(En('pool_manager::error::ContractError', 'SwapOverflowError'))
+    return Ok(St('SwapComputation', list(vals), ['return_amount', 'slippage_amount', 'swap_fee_amount', 'protocol_fee_amount',
+                                                  'burn_fee_amount', 'extra_fees_amount']))
+
+
+ABSTRACT_PRICING = {'pool-manager::compute_swap': abstract_compute_swap}
+ABSTRACT_PRICING_NOTE = 'compute_swap replaced by an uninterpreted function (same arguments => same result, Ok/Err included)'
